@@ -115,7 +115,7 @@ func (e *Engine) checkExpandSubject(r *relationTuple, restDepth int) checkgroup.
 			Trace("check expand subject")
 
 		g := checkgroup.New(ctx)
-		defer func() { resultCh <- g.Result() }()
+		defer func() { resultCh <- g.ResultFor(ctx) }()
 
 		var (
 			visited  bool
@@ -150,6 +150,8 @@ func (e *Engine) checkExpandSubject(r *relationTuple, restDepth int) checkgroup.
 				WithField("results", len(results)).
 				Debug("too many results, truncating")
 			results = results[:maxWidth-1]
+			// the subject sets that are cut off are "unknown"
+			g.Add(checkgroup.UnknownMemberFunc)
 		}
 		for _, result := range results {
 			sub := &relationtuple.SubjectSet{
